@@ -1,7 +1,7 @@
 #!/bin/bash
 # MANIFEST.setup_cmd: build every check once so that GOCACHE is warm. Offline.
 set -u
-cd /verif
+cd "$(dirname "$(readlink -f "$0")")"
 export GOFLAGS=-mod=mod GOPROXY=off GOSUMDB=off GOTOOLCHAIN=local
 mkdir -p evidence replays
 out=$(mktemp -d /dev/shm/verif-setup.XXXXXX)
